@@ -27,6 +27,7 @@ INFL_ASSUME = [
 
 FIELD_PROPS = {
     "codec": {},
+    "tomb": {},
     "infl": {
         "started": ["C06", "C11"],
         "dstarted": ["C06"],
@@ -257,6 +258,29 @@ PROPS = {
                         "UTF-8 validity is a parameter predicate of the String decoder model",
                         "the serde/bincode path (feature `serde`) is not modelled; it replaces these impls wholesale"],
     },
+    "C10": {
+        "domain": "tomb",
+        "proof_module": "FoyerProofs.C10",
+        "theorems": [
+            "Foyer.Tomb.open_finds_tail", "Foyer.Tomb.flushed_deletes_survive", "Foyer.Tomb.latestIndex_image",
+            "Foyer.Tomb.good_step", "Foyer.Tomb.recovered_image", "Foyer.Tomb.slotIndex_small",
+        ],
+        "monitor_props": ["C10"],
+        "campaigns": {
+            "quick": [{"name": "tomb-unit", "args": ["cases=150"]}],
+            "thorough": [{"name": "tomb-unit", "args": ["cases=6000"]}],
+        },
+        "nontrivial": r"op=reopen recovered=[0-9]",
+        "rule": "the real TombstoneLog on an FsDevice + PsyncIoEngine (1-3 log pages = 256-768 slots): random histories of append "
+                "batches (1, a few, 200-300, up to 600 tombstones; strictly increasing sequences) and reopens, mostly below the "
+                "capacity, one in six wrapping on purpose; after every operation the raw partition file is decoded slot by slot and "
+                "compared with the model, after every reopen the recovered list too; non-trivial = a reopen that recovered "
+                "something; distinct = distinct histories",
+        "trusted_base": TB_COMMON,
+        "assumptions": ["unit level: the log itself; that a recovered tombstone suppresses older entries of its hash and that "
+                        "sequences keep increasing across restarts is part of the recovery model (C04 / C01)",
+                        "a crash in the middle of a page write is covered by C04's crash enumeration, not here"],
+    },
     "C05": {
         "domain": "mem",
         "proof_module": "FoyerProofs.C05",
@@ -351,5 +375,15 @@ CLAIMS.update({
             "note": "trusted: Lean kernel; axioms propext/Classical.choice/Quot.sound; harness + driver; XxHash64 port validated by "
                     "correspondence only; zstd/lz4 assumed lossless; bincode path not modelled",
             "technique": "Lean 4 proof (round-trip laws by induction on width / arithmetic) + byte-exact recomputation of the real encoders' output"},
+})
+CLAIMS.update({
+    "C10": {"text": "Lean 4 theorems about the tombstone ring: for every history (append* ; reopen)* with strictly increasing non-zero "
+                    "sequences and fewer tombstones than slots, after every open the tail is right behind the last tombstone and every "
+                    "tombstone ever appended is recovered, in order — for any number of pages, batches and restarts. Tied to /repo by "
+                    "slot-by-slot comparison of the real TombstoneLog's partition file with the model after every operation",
+            "note": "trusted: Lean kernel; axioms propext/Classical.choice/Quot.sound; harness + driver; unit level only (the hybrid "
+                    "remove -> close/crash -> reopen path rests on the recovery model of C04/C01); wrap-around beyond capacity is "
+                    "exercised by the correspondence but not covered by the theorem",
+            "technique": "Lean 4 proof (image invariant by induction over the history) + trace-validating correspondence on raw device bytes"},
 })
 NOT_CLAIMED = {}
